@@ -2018,6 +2018,10 @@ class DynamicSpaceImpl(BaseSpaceImpl):
     ):
         self._dynbase = base
         base._dynamic_subs.append(self)
+        # A change of the base discards this space through the base's
+        # on_namespace_change, which is called only when the namespace
+        # of the base was up to date at the time of the change
+        base.namespace
         self._init_root(parent)
         if cache:
             cache._impl = self
